@@ -32,6 +32,10 @@ def Filter.invoke (f : Filter) (e : Ev) : Bool :=
   else if f.event == "query" && f.name != "" then e.name == f.name
   else true
 
+/-- `EventFilter.Valid` -/
+def Filter.valid (f : Filter) : Bool :=
+  ["member-join", "member-leave", "member-failed", "member-update", "member-reap", "user", "query", "*"].contains f.event
+
 def dropPrefix (s : String) (n : Nat) : String := String.ofList (s.toList.drop n)
 
 /-- `ParseEventFilter` -/
